@@ -130,8 +130,10 @@ impl<'a, N: Normalizer> XmlSerializer<'a, N> {
                 r
             }
             Prefix(prefix_id, namespace_id) => {
-                // we don't want to output the xml prefix
-                if *namespace_id == self.xot.xml_namespace() {
+                // we don't want to output the xml prefix; another prefix (or the
+                // default) bound to the XML namespace is a declaration like any
+                // other and the names that use it need it
+                if *prefix_id == self.xot.xml_prefix() && *namespace_id == self.xot.xml_namespace() {
                     return Ok(OutputToken {
                         space: false,
                         text: "".to_string(),
